@@ -430,8 +430,8 @@ PROPS = {
     "C12": {
         "engine": "fltsim",
         "instrument": "internal/filter/internal/rulelist=locks,calls:cache\\.(Get|Set|Clear);internal/filter/hashprefix=locks,calls:resCache\\.|hashes\\.(Matches|Reset);internal/filter/filterstorage=locks",
-        "cfgs": ["", "conc", "replip", "conc", "concq"],
-        "quick": {"seconds": 40, "chunk": 500, "runs": 16000},
+        "cfgs": ["conc", "", "conc", "replip", "conc", "concq"],
+        "quick": {"seconds": 60, "chunk": 500, "runs": 16000},
         "thorough": {"seconds": 1200, "chunk": 2000},
         "rule": ("one run = storage A (all result caches on) and a stateless twin B (caches off or emptied before every request) "
                  "loading the same list versions; 2-4 requesters with different blocking modes (null IP, custom IP, NXDOMAIN, "
